@@ -13,6 +13,7 @@ import (
 	"strings"
 
 	"github.com/arm-doe/sts"
+	"github.com/arm-doe/sts/verifhook"
 )
 
 // LockExt is the file extension added to file names as contents are written.
@@ -83,6 +84,7 @@ func writeJSON(path string, data interface{}, humanFriendly bool) (err error) {
 	if err = os.WriteFile(path+LockExt, jsonBytes, 0644); err != nil {
 		return
 	}
+	verifhook.At("fileutil.writejson.tmp", "path", path)
 	err = os.Rename(path+LockExt, path)
 	return
 }
@@ -204,6 +206,7 @@ func Move(src, dst string) error {
 			return err
 		}
 	}
+	verifhook.At("fileutil.move.lck", "src", src, "dst", dst)
 	if err = os.Rename(dst+LockExt, dst); err != nil {
 		return err
 	}
